@@ -72,6 +72,11 @@ prop("C06", "E-GEN",
      "All graphs over @main, @a, @b where each type is an object with 1-2 properties and each property is a scalar, a plain/optional/nullable/array link to one of the three types or a choice of two (650 root forms x 139 reduced forms squared quick; all 650^3 would be thorough-bounded by time), plus all chains @main -> t1 .. tk -> @main up to k=4 (thorough 6) with every mix of 6 link kinds: finite(root) => no recursion error; root reaching itself through plain links => error 104 whatever the length; every accepted schema's Example() returns RFC 8259 JSON.",
      "Roots infinite only through a cycle not containing the root carry no claim; three types / seven-link chains is the scope.")
 
+prop("C07", "E-GEN",
+     "bounded exhaustive enumeration of inheritance graphs judged by a reference merge",
+     "2.6 M projects over @root, @a, @b, @c (objects with required/optional/nested own keys or non-objects; allOf = every ordered list of <=2 of the other types, itself and an unregistered name; additionalProperties absent/true/false/typed): Check() must refuse non-object, missing, cyclic, duplicate-key and conflicting-additionalProperties inheritance and otherwise Example() keys must be own-then-inherited in list order, the OpenAPI property listing the same set with optional marks, and every compiled child must be marked with the type it came from and keep its required/optional status.",
+     "Any error counts as refusal; InheritedFrom may name the immediate or the declaring ancestor; true and \"any\" are equal.")
+
 ORDER = ["C%02d" % i for i in range(1, 21)]
 
 def main():
